@@ -228,18 +228,28 @@ def rule_PF(facts):
     pw = (FA.by_base_name.get(('quadwt::prefetch_support::PrefetchSupport', 'new'), []) or [None])[0]
     pr = (FA.by_base_name.get(('quadwt::prefetch_support::PrefetchSupport', 'approx_rank_unchecked'), []) or [None])[0]
     key = 'R-PF|e|PrefetchSupport sample count'
+    props_e = props + ['C14', 'C04']
     if pw is None or pr is None:
-        out.append(Inst('R-PF', key, 'violation', '', 'PrefetchSupport::new / approx_rank_unchecked not found (anchor lost)', props))
+        out.append(Inst('R-PF', key, 'violation', '', 'PrefetchSupport::new / approx_rank_unchecked not found (anchor lost)', props_e))
     else:
         W = FA.fn(pw)
         woff = []
         for b in W.blocks:
             for s in b['s']:
                 rv = s.get('rv')
-                if rv and rv['k'] == 'bin' and rv['op'] == 'Rem':
+                if rv and rv['k'] == 'bin' and rv['op'] in ('Rem', 'BitAnd'):
                     x = norm(W.operand_term(rv['a']))
+                    m = norm(W.operand_term(rv['b']))
+                    if rv['op'] == 'BitAnd' and not any(isinstance(z, tuple) and z and z[0] == 'call' and z[1].split('::')[-1] == 'enumerate' for z in subterms(x)):
+                        x, m = m, x
                     base, c = _affine(x)
                     if any(isinstance(z, tuple) and z and z[0] == 'call' and z[1].split('::')[-1] == 'enumerate' for z in subterms(base)):
+                        if rv['op'] == 'BitAnd':
+                            # `i & (rate - 1)` is `i % rate`; `i & rate` is not
+                            mb, mc = _affine(m)
+                            if mc != -1:
+                                woff.append((10 ** 6, s['line']))
+                                continue
                         woff.append((c, s['line']))
         R2 = FA.fn(pr)
         rplus = []
@@ -250,14 +260,17 @@ def rule_PF(facts):
                 if base[0] == 'bin' and base[1] in ('Shr', 'Div'):
                     rplus.append((c, t['line']))
         if not woff or not rplus:
-            out.append(Inst('R-PF', key, 'violation', pw['span'], 'chunk-closing test `index %% rate` or reader `rank1((i >> shift) + c)` not found (anchor lost)', props))
+            out.append(Inst('R-PF', key, 'violation', pw['span'], 'chunk-closing test `index %% rate` or reader `rank1((i >> shift) + c)` not found (anchor lost)', props_e))
         elif all(c == 0 for c, _ in woff) and all(c == 1 for c, _ in rplus):
-            out.append(Inst('R-PF', key, 'ok', woff[0][1], 'writer closes a chunk at index %% rate == 0 (0-based); reader ranks (i >> shift) + 1 sample bits', props,
+            out.append(Inst('R-PF', key, 'ok', woff[0][1], 'writer closes a chunk at index %% rate == 0 (0-based); reader ranks (i >> shift) + 1 sample bits', props_e,
                             sample={'writer_offset': [c for c, _ in woff], 'reader_plus': [c for c, _ in rplus]}))
+        elif any(c == 10 ** 6 for c, _ in woff):
+            out.append(Inst('R-PF', key, 'violation', woff[0][1],
+                            'the chunk-closing test masks the index with a value that is not rate - 1 (`i & rate` is not `i %% rate`): chunks are closed at the wrong positions, so the sample vectors have the wrong density and length', props_e))
         else:
             out.append(Inst('R-PF', key, 'violation', woff[0][1],
                             'writer closes chunks at (index %+d) %% rate == 0 and the reader ranks (i >> shift) %+d bits and unwraps: the sample vector can be one bit short (panic on a position at a chunk boundary)' % (
-                                woff[0][0], rplus[0][0]), props, sample={'writer_offset': [c for c, _ in woff], 'reader_plus': [c for c, _ in rplus]}))
+                                woff[0][0], rplus[0][0]), props_e, sample={'writer_offset': [c for c, _ in woff], 'reader_plus': [c for c, _ in rplus]}))
     # (d) feature independence: default vs nofeat differ only in prefetch_read_NTA
     NF = facts.get('nofeat')
     if NF is not None:
